@@ -146,6 +146,135 @@ def _par_eval(h):
 
 
 # ---------------------------------------------------------------------------------------------
+# Program.__init__(parent): a successor segment starts from the register state of its parent and shares NOTHING mutable
+# with it - whatever is done to the successor (deleting / creating modes, appending commands, storing outcomes) leaves
+# the parent, which the user still holds, exactly as it was.  Parent shapes enumerated (1-3 initial modes, optionally a
+# deleted and a created mode, a stored outcome of symbolic value): shape-bounded.
+# ---------------------------------------------------------------------------------------------
+PRG = "strawberryfields.program"
+
+
+def _reg_state(prog):
+    return [(k, r.ind, r.active, r.val) for k, r in prog.reg_refs.items()], set(prog.unused_indices), len(prog.circuit), list(prog.circuit)
+
+
+def _same_state(a, b):
+    ra, ua, na, ca = a
+    rb, ub, nb, cb = b
+    return (len(ra) == len(rb) and all(x[:3] == y[:3] and x[3] is y[3] for x, y in zip(ra, rb)) and ua == ub and na == nb
+            and all(x is y for x, y in zip(ca, cb)))
+
+
+@proof("C09", PRG + ":Program.__init__", name="Program.__init__/successor-shares-nothing-mutable-with-its-parent")
+def _program_from_parent(h):
+    ops, prg = h.module(OPS), h.module(PRG)
+    n = (1, 2, 3)[h.eng.choose(3, "modes")]
+    history = ("plain", "deleted-first", "created", "deleted-and-created")[h.eng.choose(4, "history")]
+    parent = prg.Program(n)
+    val = h.real("outcome")
+    with parent.context as q:
+        ops.Rgate(0.3) | q[n - 1]
+        if history in ("deleted-first", "deleted-and-created") and n > 1:
+            ops.Del | q[0]
+        if history in ("created", "deleted-and-created"):
+            ops.New(1)
+    parent.reg_refs[n - 1].val = val
+    before = _reg_state(parent)
+    out = h.call(prg.Program, parent)
+    h.ensure("no-exception", out.returned, bounded_shape=True)
+    if not out.returned:
+        return
+    child = out.value
+    h.ensure("parent-locked", parent.locked is True, bounded_shape=True)
+    h.ensure("construction-leaves-the-parent-register-and-circuit-untouched", _same_state(_reg_state(parent), before), bounded_shape=True)
+    h.ensure("successor-starts-from-the-parent's-register-state", [x[:3] for x in _reg_state(child)[0]] == [x[:3] for x in before[0]]
+             and child.unused_indices == before[1] and child.init_num_subsystems == parent.num_subsystems and child.circuit == [], bounded_shape=True)
+    h.ensure("successor-owns-its-register-references", all(child.reg_refs[k] is not parent.reg_refs[k] for k in parent.reg_refs)
+             and child.reg_refs is not parent.reg_refs and child.unused_indices is not parent.unused_indices, bounded_shape=True)
+    # whatever is done to the successor ...
+    live = [r for r in child.reg_refs.values() if r.active]
+    with child.context as q:
+        ops.Sgate(0.2) | live[-1]
+        if len(live) > 1:
+            ops.Del | live[0]
+        ops.New(2)
+        ops.MeasureHomodyne(0.0) | live[-1]
+    live[-1].val = h.real("later_outcome")
+    h.ensure("editing-the-successor-leaves-the-parent-untouched", _same_state(_reg_state(parent), before), bounded_shape=True)
+    h.ensure("successor-still-follows-its-parent", child.can_follow(parent) is True, bounded_shape=True)
+
+
+# ---------------------------------------------------------------------------------------------
+# par_regref_deps / Operation.__init__ / Command.get_dependencies over the GRAMMAR of parameters: a parameter is a number,
+# a symbolic expression (atoms: measured / free parameters, numbers; built with + * ** and the par_funcs) or an object
+# array of ANY shape whose elements are again parameters.  Contract: the dependencies are exactly the registers of the
+# measured atoms occurring anywhere in the parameter, however deep; the operation built from the parameters depends on
+# their union and the command on that union plus its own registers.  Enumerated: every element form x every container
+# shape below (structure only - there is nothing numeric to abstract), so shape-bounded.
+# ---------------------------------------------------------------------------------------------
+def _element_forms(par, r0, r1, fp):
+    f = par.par_funcs
+    return [
+        ("number", lambda: 0.37, set()),
+        ("bare-measured", lambda: r0.par, {r0}),
+        ("scaled-measured", lambda: 1.0 * r0.par, {r0}),
+        ("function-of-measured", lambda: f.sin(r1.par), {r1}),
+        ("sum-of-two-measured", lambda: 2 * r0.par + f.exp(r1.par) ** 2, {r0, r1}),
+        ("free-parameter", lambda: 3 * fp, set()),
+        ("free-times-measured", lambda: fp * r1.par, {r1}),
+    ]
+
+
+def _containers():
+    import numpy as _np
+
+    def arr(shape):
+        def mk(elems):
+            n = int(_np.prod(shape))
+            a = _np.empty(n, dtype=object)
+            for k in range(n):
+                a[k] = elems[k % len(elems)]()
+            return a.reshape(shape)
+        return mk
+    return [("scalar", lambda elems: elems[0]()), ("array[1]", arr((1,))), ("array[3]", arr((3,))), ("array[2,2]", arr((2, 2))),
+            ("array[1,2,1]", arr((1, 2, 1))),
+            ("number-array-times-measured", lambda elems: _np.array([1.0, 0.5]) * elems[0]() if not isinstance(elems[0](), float) else _np.array([1.0, 0.5]))]
+
+
+@proof(["C10", "C04"], PAR + ":par_regref_deps", name="par_regref_deps/every-measured-atom-at-any-depth")
+def _regref_deps_grammar(h):
+    ops, pu, par = h.module(OPS), h.module(PU), h.module(PAR)
+    r0, r1, r2 = pu.RegRef(0), pu.RegRef(1), pu.RegRef(2)
+    fp = par.FreeParameter("gamma_c10")
+    forms = _element_forms(par, r0, r1, fp)
+    for cname, mk in _containers():
+        for i, (fname, el, deps) in enumerate(forms):
+            # the container holds this form first and the next two forms after it (arrays mix kinds of elements)
+            elems = [forms[(i + d) % len(forms)] for d in range(3)]
+            p = mk([e[1] for e in elems])
+            n_el = 1 if cname in ("scalar", "array[1]", "number-array-times-measured") else (2 if cname == "array[1,2,1]" else 3)
+            want = set().union(*[e[2] for e in elems[:n_el]])
+            out = h.call(par.par_regref_deps, p)
+            tag = f"{cname}/{fname}"
+            h.ensure(f"{tag}.no-exception", out.returned, bounded_shape=True)
+            if not out.returned:
+                continue
+            h.ensure(f"{tag}.exactly-the-registers-of-the-measured-atoms", set(out.value) == want, bounded_shape=True)
+            op = h.call(ops.Ggate if False else _AnyOp(ops), [0.5, p])
+            h.ensure(f"{tag}.operation-depends-on-the-union-over-its-parameters", op.returned and set(op.value.measurement_deps) == want, bounded_shape=True)
+            if op.returned:
+                cmd = pu.Command(op.value, [r2])
+                d = h.call(cmd.get_dependencies)
+                h.ensure(f"{tag}.command-depends-on-its-registers-and-the-measured-registers", d.returned and set(d.value) == want | {r2}, bounded_shape=True)
+
+
+def _AnyOp(ops):
+    class AnyOp(ops.Operation):
+        ns = 1
+    return AnyOp
+
+
+# ---------------------------------------------------------------------------------------------
 # BaseEngine._run: the segment loop against ABSTRACT program segments (modular: only can_follow / bind_params / lock /
 # reg_refs of a Program are used).  Measured values are handed from one segment to the next MODE BY MODE (keyed by the
 # subsystem index, whatever was deleted or created in between), before the segment is run; nothing is handed to a mode
